@@ -213,6 +213,7 @@ impl<'tcx, 'a> Cx<'tcx, 'a> {
     pub fn dump_bodies(&self) -> J {
         let tcx = self.tcx;
         let mut bodies = Vec::new();
+        let mut generated = Vec::new();
         let mut skipped = 0i128;
         let mut unsafe_non_src = 0i128;
         for ldid in tcx.hir_body_owners() {
@@ -234,6 +235,11 @@ impl<'tcx, 'a> Cx<'tcx, 'a> {
                         unsafe_non_src += 1;
                     }
                 }
+                // the semantic actions of the generated parser (one function per grammar alternative) are dumped
+                // apart from the source bodies: they are the type-checked form of the grammar file's action code
+                if matches!(kind, DefKind::Fn) && tcx.item_name(ldid.to_def_id()).as_str().starts_with("__action") {
+                    generated.push(self.body_json(ldid));
+                }
                 continue;
             }
             bodies.push(self.body_json(ldid));
@@ -241,6 +247,7 @@ impl<'tcx, 'a> Cx<'tcx, 'a> {
         let types = self.types.borrow().0.iter().map(|s| J::s(s.clone())).collect();
         J::obj()
             .with("bodies", J::Arr(bodies))
+            .with("generated_actions", J::Arr(generated))
             .with("skipped_non_src", J::Int(skipped))
             .with("unsafe_non_src", J::Int(unsafe_non_src))
             .with("types", J::Arr(types))
